@@ -10,6 +10,9 @@ import sys, os, json, subprocess, shutil, time
 
 ROOT = os.path.dirname(os.path.dirname(os.path.abspath(__file__)))
 SEEDED = os.path.join(ROOT, "seeded")
+# VERIF_SNAP=<dir>: run ./check from a frozen copy of /verif (made by `tools/seeded.py snapshot`), so that harness
+# files can be edited while a long matrix run is in progress; results are still recorded under /verif/seeded
+CHECK_ROOT = os.environ.get("VERIF_SNAP") or ROOT
 TEST = ["/venv/bin/python", "-m", "pytest", "-q", "-p", "no:cacheprovider", "--timeout=900", "--continue-on-collection-errors"]
 
 
@@ -85,11 +88,11 @@ def do_run(sid, props, tier="quick", in_repo=False, only=None):
     try:
         for p in props:
             env = dict(os.environ, LSF_REPO=target, VERIF_EVIDENCE_DIR="/tmp/seed_evidence")
-            cmd = [os.path.join(ROOT, "check"), p, "--tier", tier]
+            cmd = [os.path.join(CHECK_ROOT, "check"), p, "--tier", tier]
             for o in only or []:
                 cmd += ["--only", o]
             t0 = time.time()
-            rc, out = sh(cmd, cwd=ROOT, env=env, timeout=7200)
+            rc, out = sh(cmd, cwd=CHECK_ROOT, env=env, timeout=7200)
             viol = [l for l in out.splitlines() if l.startswith("VIOLATION") or l.strip().startswith("counterexample in")]
             herr = [l for l in out.splitlines() if l.startswith("HARNESS-ERROR")]
             meta.setdefault("checks", {})[p + ":" + tier] = {"exit": rc, "caught": rc == 1, "wall_s": round(time.time() - t0, 1),
@@ -137,3 +140,9 @@ if __name__ == "__main__":
         do_run(rest[0], rest[1:], tier, a[0] == "run-in-repo", only)
     elif a[0] == "matrix":
         matrix()
+    elif a[0] == "snapshot":
+        dst = a[1] if len(a) > 1 else "/tmp/verif_snap"
+        shutil.rmtree(dst, ignore_errors=True)
+        shutil.copytree(ROOT, dst, ignore=shutil.ignore_patterns(".git", "evidence", ".venv", ".venv.lock", "__pycache__", "seeded"), symlinks=True)
+        os.symlink(os.path.join(ROOT, ".venv"), os.path.join(dst, ".venv"))
+        print(dst)
